@@ -517,8 +517,8 @@ func RunC15Traces(ctx *core.Ctx) {
 	defer runtime.GOMAXPROCS(prev)
 	procsList := []int{1, 2, 3, 4, 8, 16}
 	jitters := []int{0, 60, 300, 800}
-	sessions := ctx.Scale(300, 4000)
-	deadline := time.Now().Add(min(time.Duration(ctx.Scale(40, 400))*time.Second, c15Remaining(ctx)))
+	sessions := ctx.Scale(300, 2000)
+	deadline := time.Now().Add(min(time.Duration(ctx.Scale(40, 200))*time.Second, c15Remaining(ctx)))
 	for s := 0; s < sessions && time.Now().Before(deadline); s++ {
 		procs := procsList[s%len(procsList)]
 		jitter := jitters[(s/len(procsList))%len(jitters)]
@@ -1034,7 +1034,10 @@ func c15GoEnv() []string {
 }
 
 // c15BuildRace builds cmd/pqrace with the race detector against the same tree as this binary.
-func c15BuildRace(limit time.Duration) (string, string, error) {
+func c15BuildRace(limit time.Duration) (string, string, error) { return c15BuildScenarioBinary(limit, true) }
+
+// c15BuildScenarioBinary builds cmd/pqrace with or without the race detector.
+func c15BuildScenarioBinary(limit time.Duration, race bool) (string, string, error) {
 	root, err := os.Getwd()
 	if err != nil {
 		return "", "", err
@@ -1045,9 +1048,14 @@ func c15BuildRace(limit time.Duration) (string, string, error) {
 		return "", "", fmt.Errorf("harness module file not found (%s): run through ./check", modfile)
 	}
 	bin := filepath.Join(root, ".build", "pqrace")
+	args := []string{"build", "-race"}
+	if !race {
+		bin = filepath.Join(root, ".build", "pqrace-norace")
+		args = []string{"build"}
+	}
 	c, cancel := context.WithTimeout(context.Background(), min(15*time.Minute, limit))
 	defer cancel()
-	cmd := exec.CommandContext(c, "go", "build", "-race", "-modfile", modfile, "-tags", "verif", "-o", bin, "./cmd/pqrace")
+	cmd := exec.CommandContext(c, "go", append(args, "-modfile", modfile, "-tags", "verif", "-o", bin, "./cmd/pqrace")...)
 	cmd.Dir = harness
 	cmd.Env = c15GoEnv()
 	out, err := cmd.CombinedOutput()
@@ -1070,6 +1078,36 @@ func RunC15Scenarios(ctx *core.Ctx) {
 		bin, out, err := c15BuildRace(max(2*time.Minute, c15Remaining(ctx)-time.Minute))
 		buildDone <- built{bin, out, err}
 	}()
+	// the scenarios that can kill the process (SubprocessOnly) also run without the race detector, in
+	// a plain build of the same command: their own oracles (result vs input) are what reports there
+	plainDone := make(chan struct{})
+	go func() {
+		defer close(plainDone)
+		bin, out, err := c15BuildScenarioBinary(max(2*time.Minute, c15Remaining(ctx)-time.Minute), false)
+		if err != nil {
+			if errors.Is(err, context.DeadlineExceeded) {
+				ctx.Observe("plain-build-timeout", "go build of cmd/pqrace (without -race) did not finish in time (slow machine)", map[string]any{"output": out})
+			} else {
+				ctx.Fail("L2", "race-build-failed", "go build of cmd/pqrace (without -race) failed: "+err.Error(), map[string]any{"output": out})
+			}
+			return
+		}
+		var wg sync.WaitGroup
+		for _, sc := range C15Scenarios {
+			if !sc.SubprocessOnly {
+				continue
+			}
+			for _, procs := range []int{0, 4} {
+				wg.Add(1)
+				go func(name, doc string, procs int) {
+					defer wg.Done()
+					c15RaceRun(ctx, bin, name, doc, base+int64(procs)*100, 3*seeds, procs, max(time.Minute, c15Remaining(ctx)))
+				}(sc.Name, sc.Doc, procs)
+			}
+		}
+		wg.Wait()
+	}()
+	defer func() { <-plainDone }()
 	// ---- in-process (no race detector): serial output == concurrent output; a few scenarios at a time
 	{
 		var wg sync.WaitGroup
@@ -1192,13 +1230,18 @@ func c15RaceRun(ctx *core.Ctx, bin, name, doc string, seed int64, n, procs int, 
 			}
 		}
 	}
-	ctx.HistN("race_runs", name, int64(strings.Count(text, "OK scenario=")))
+	plain := strings.HasSuffix(bin, "-norace")
+	if plain {
+		ctx.HistN("plain_subprocess_runs", name, int64(strings.Count(text, "OK scenario=")))
+	} else {
+		ctx.HistN("race_runs", name, int64(strings.Count(text, "OK scenario=")))
+	}
 	tail := text
 	if len(tail) > 9000 {
 		tail = tail[:3000] + "\n...\n" + tail[len(tail)-6000:]
 	}
 	detail := map[string]any{"scenario": name, "seed": lastSeed, "gomaxprocs": procs, "output": tail,
-		"replay": fmt.Sprintf("GORACE=halt_on_error=1 .build/pqrace -scenario %s -seed %d -procs %d", name, lastSeed, procs)}
+		"replay": fmt.Sprintf("GORACE=halt_on_error=1 %s -scenario %s -seed %d -procs %d", strings.TrimPrefix(bin, filepath.Dir(filepath.Dir(bin))+"/"), name, lastSeed, procs)}
 	switch {
 	case strings.Contains(text, "WARNING: DATA RACE"):
 		ctx.Fail("L1", "data-race "+name, doc+": the race detector reports a data race", detail)
@@ -1223,7 +1266,9 @@ func c15RaceRun(ctx *core.Ctx, bin, name, doc string, seed int64, n, procs int, 
 		ctx.Hist("race_run_unfinished", name)
 		ctx.Observe("race-run-unfinished "+name, "the -race subprocess was still running when the harness gave up waiting (slow machine); no verdict is derived from it", detail)
 	case strings.Contains(text, "MISMATCH "):
-		ctx.Fail("L1", c15ScenarioKey(name, text[strings.Index(text, "MISMATCH "):]), doc+": the concurrent output differs from the serial output, or from the result the input determines (race build)", detail)
+		ctx.Fail("L1", c15ScenarioKey(name, text[strings.Index(text, "MISMATCH "):]), doc+": the concurrent output differs from the serial output, or from the result the input determines (subprocess)", detail)
+	case strings.Contains(text, "fatal error: concurrent map"):
+		ctx.Fail("L1", "concurrent-map-access "+name, doc+": the Go runtime aborted the process: a map shared between goroutines was read or written while another goroutine wrote it", detail)
 	case strings.Contains(text, "panic:") || strings.Contains(text, "fatal error:"):
 		ctx.Fail("L1", "panic "+name, doc+": panic", detail)
 	case err != nil:
